@@ -4,6 +4,7 @@ import (
 	"fmt"
 	"go/token"
 	"go/types"
+	"strings"
 
 	"dawnverif/checker/core"
 
@@ -21,6 +22,7 @@ func runC02(p *core.Prog, r *core.Result) {
 		"R2.7 the stamp a loaded target reports to its dependents (targetInfo.stamp) is a persisted field of its record, verbatim (the combined stamp, or the plain data of a record written before combined stamps existed) - never a value recomputed at load, which differs from what dependents stored whenever the formula or the record format has changed since",
 		"R2.5 the current environment of a function (functionEnv) is not computed from anything reachable from loadFunction: it is taken only after every module has finished executing, so it is complete",
 		"R2.8 what a function's stamp is computed from is fixed when loading ends: a host value whose contents are written while targets run (a cache) is neither pickled by content by the encoder nor read by the host pickler - otherwise the stamp recorded by one build differs from the one the next, unchanged, build computes before anything ran (shared with C08 R8.8)",
+		"R2.9 dawn's own records are nobody's input: every function of package dawn that lists project directories on behalf of a build decision (package loading, glob(), the content sum of a source directory) branches on a comparison that names the state directory (a string constant containing .dawn, or a value that flows from Project.work) - the records under .dawn/build are rewritten by every build, so a listing that covers them is different on every load (the collector, which walks the state directory itself, is the one exception)",
 		"R2.4 both sides of the environment comparison are produced by the same decoder/unpickler, and the persisted stamp by the same pickler as the current one",
 	}
 	r.NotDecided = []string{"that unrelated edits (comments, whitespace, other packages) leave the compiled bytecode and constants of a function unchanged (a property of the Starlark compiler)", "behaviour across process restarts and load interleavings as observed"}
@@ -31,6 +33,9 @@ func runC02(p *core.Prog, r *core.Result) {
 
 	// ---- R2.2
 	checkSourceCompare(p, r, "R2.2")
+
+	// ---- R2.9 the state directory is left out of every listing
+	checkStateDirExcluded(p, r, "R2.9")
 
 	// ---- R2.8 run-time contents stay out of the stamp
 	checkRuntimeStateNotPickledByContent(p, r, "R2.8")
@@ -631,4 +636,163 @@ func checkStalenessHasReason(p *core.Prog, r *core.Result) {
 			}
 		})
 	}
+}
+
+// checkStateDirExcluded implements R2.9 (sibling agreement of the directory-listing functions).
+func checkStateDirExcluded(p *core.Prog, r *core.Result, rule string) {
+	var fromWork func(v ssa.Value, depth int, seen map[ssa.Value]bool) bool
+	fromWork = func(v ssa.Value, depth int, seen map[ssa.Value]bool) bool {
+		if seen[v] {
+			return true // a cycle (mutual recursion passing the value on) adds no other origin
+		}
+		if depth > 6 {
+			return false
+		}
+		seen[v] = true
+		if core.LoadOfField(v, pkgRoot, "Project", "work") || core.LoadOfField(v, pkgRoot, "Project", "temp") {
+			return true
+		}
+		switch x := v.(type) {
+		case *ssa.Parameter:
+			fn := x.Parent()
+			i := paramIndex(fn, x)
+			callers := p.StaticCallers(fn)
+			if i < 0 || len(callers) == 0 || fn.Parent() != nil {
+				return false
+			}
+			for _, c := range callers {
+				if c.Parent() == fn {
+					continue // the recursion passes it on
+				}
+				if i >= len(c.Common().Args) || !fromWork(c.Common().Args[i], depth+1, seen) {
+					return false
+				}
+			}
+			return true
+		case *ssa.FreeVar:
+			if b := core.Binding(x); b != nil {
+				return fromWork(b, depth+1, seen)
+			}
+		case *ssa.UnOp:
+			if sv := core.SingleStore(x.X); sv != nil {
+				return fromWork(sv, depth+1, seen)
+			}
+		case *ssa.Call:
+			if core.IsCallTo(x, "path/filepath", "Join") || core.IsCallTo(x, "path/filepath", "Clean") {
+				for _, a := range x.Call.Args {
+					if fromWork(a, depth+1, seen) {
+						return true
+					}
+				}
+				// variadic Join: the elements of the implicit slice
+				for _, op := range variadicOperandsOf(x) {
+					if fromWork(op, depth+1, seen) {
+						return true
+					}
+				}
+			}
+		}
+		return false
+	}
+	namesStateDir := func(v ssa.Value) bool {
+		if s, ok := core.ConstString(v); ok {
+			return strings.Contains(s, ".dawn")
+		}
+		return fromWork(v, 0, map[ssa.Value]bool{})
+	}
+	n := 0
+	for _, fn := range p.ModuleFuncs() {
+		top := fn
+		for top.Parent() != nil {
+			top = top.Parent()
+		}
+		if top.Pkg == nil || top.Pkg.Pkg.Path() != pkgRoot || fn.Blocks == nil {
+			continue
+		}
+		// what is listed: os.ReadDir(x), f.ReadDir on an opened directory, or the callback of filepath.WalkDir(x, ...)
+		var listed []ssa.Value
+		var at ssa.Instruction
+		for _, c := range core.Calls(fn) {
+			switch {
+			case core.IsCallTo(c, "os", "ReadDir"):
+				listed, at = append(listed, c.Common().Args[0]), c.(ssa.Instruction)
+			case core.IsMethod(c, "os", "File", "ReadDir") || core.IsMethod(c, "os", "File", "Readdir") || core.IsMethod(c, "os", "File", "Readdirnames"):
+				listed, at = append(listed, nil), c.(ssa.Instruction)
+			}
+		}
+		if fn.Parent() != nil {
+			// a walk callback: find the WalkDir call in the parent that is handed this closure
+			for _, c := range core.Calls(fn.Parent()) {
+				if !(core.IsCallTo(c, "path/filepath", "WalkDir") || core.IsCallTo(c, "path/filepath", "Walk")) {
+					continue
+				}
+				arg := c.Common().Args[1]
+				if ct, ok := arg.(*ssa.ChangeType); ok {
+					arg = ct.X
+				}
+				if mc, ok := arg.(*ssa.MakeClosure); ok && mc.Fn == ssa.Value(fn) {
+					listed, at = append(listed, c.Common().Args[0]), c.(ssa.Instruction)
+				}
+			}
+		}
+		if len(listed) == 0 {
+			continue
+		}
+		// the collector walks the state directory itself
+		inState := false
+		for _, l := range listed {
+			if l != nil && fromWork(l, 0, map[ssa.Value]bool{}) {
+				inState = true
+			}
+		}
+		if inState {
+			r.Note(rule, fname(fn)+"#lists-the-state-directory", p.InstrPos(at), "walks the state directory itself (collector): exempt")
+			continue
+		}
+		n++
+		guarded := false
+		core.Instrs(fn, func(in ssa.Instruction) {
+			iff, ok := in.(*ssa.If)
+			if !ok {
+				return
+			}
+			b, ok := iff.Cond.(*ssa.BinOp)
+			if !ok || (b.Op != token.EQL && b.Op != token.NEQ) {
+				return
+			}
+			if namesStateDir(b.X) || namesStateDir(b.Y) {
+				guarded = true
+			}
+		})
+		r.Check(guarded, rule, fname(fn)+"#leaves-out-the-state-directory", p.InstrPos(at), "the listing branches on a comparison with the state directory (.dawn / Project.work)", "this function lists project directories for a build decision but nothing in it tells the state directory apart: the records under .dawn/build, which every build rewrites, become part of what it computes (a source directory that contains .dawn - sources=[\".\"] in the root package - is out of date on every load and an unchanged tree is rebuilt every time)")
+	}
+	r.Floor(rule, n, 3, "functions that list project directories for a build decision")
+}
+
+// variadicOperandsOf lists the elements of the implicit slice of a variadic call.
+func variadicOperandsOf(c *ssa.Call) []ssa.Value {
+	if len(c.Call.Args) == 0 {
+		return nil
+	}
+	sl, ok := c.Call.Args[len(c.Call.Args)-1].(*ssa.Slice)
+	if !ok {
+		return nil
+	}
+	arr, ok := sl.X.(*ssa.Alloc)
+	if !ok {
+		return nil
+	}
+	var out []ssa.Value
+	for _, ref := range *arr.Referrers() {
+		ia, ok := ref.(*ssa.IndexAddr)
+		if !ok {
+			continue
+		}
+		for _, ref2 := range *ia.Referrers() {
+			if st, ok := ref2.(*ssa.Store); ok && st.Addr == ssa.Value(ia) {
+				out = append(out, st.Val)
+			}
+		}
+	}
+	return out
 }
